@@ -72,21 +72,21 @@ var fixtures = []string{"test.success.grammar", "ebnf.grammar", "pascal.grammar"
 
 var multiDiag = []string{
 	// >= 2 undefined tokens, >= 2 duplicate values, >= 2 multiple definitions
-	"grammar md;\nA = \"same\"; B = \"same\"; C = \"dup2\"; D = \"dup2\";\nstart = U1 U2 U3 A B C D;\n",
+	"grammar md;\nAA = \"same\"; BB = \"same\"; CC = \"dup2\"; DD = \"dup2\";\nstart = U1 U2 U3 AA BB CC DD;\n",
 	"grammar md;\nNUM = /[0-9]+/; NUM = /[0-9]/; ID = /[a-z]+/; ID = /[a-z]/; ID = \"x\";\nstart = NUM ID UNDEF_A UNDEF_B;\n",
 	"grammar md;\nstart = T1 | T2 | T3 | T4 | T5;\n",
-	"grammar md;\nA = \"v\"; B = \"v\"; C = \"v\"; D = \"w\"; E = \"w\";\nstart = A B C D E;\n",
+	"grammar md;\nAA = \"v\"; BB = \"v\"; CC = \"v\"; DD = \"w\"; EE = \"w\";\nstart = AA BB CC DD EE;\n",
 	// >= 2 overlapping pattern pairs
-	"grammar md;\nA = /[a-z]+/; B = /[a-c]+/; C = /[0-9]+/; D = /[0-5]+/;\nstart = A B C D;\n",
-	"grammar md;\nA = /ab*/; B = /a+/; C = /xy*/; D = /x+/; E = /[x-z]/;\nstart = A | B | C | D | E;\n",
+	"grammar md;\nAA = /[a-z]+/; BB = /[a-c]+/; CC = /[0-9]+/; DD = /[0-5]+/;\nstart = AA BB CC DD;\n",
+	"grammar md;\nAA = /ab*/; BB = /a+/; CC = /xy*/; DD = /x+/; EE = /[x-z]/;\nstart = AA | BB | CC | DD | EE;\n",
 	// invalid patterns (several)
-	"grammar md;\nA = /[z-a]/; B = /a{3,1}/; C = /(/;\nstart = A B C;\n",
+	"grammar md;\nAA = /[z-a]/; BB = /a{3,1}/; CC = /(/;\nstart = AA BB CC;\n",
 	// unresolved LALR conflicts (several)
 	"grammar md;\nstart = start \"+\" start | start \"*\" start | start \"-\" start | \"n\";\n",
 	"grammar md;\nstart = a | b | c;\na = \"x\";\nb = \"x\";\nc = \"x\" \"y\" | \"x\";\n",
 	"grammar md;\nstart = start start | \"a\" | ;\n",
 	// missing start plus other problems
-	"grammar md;\nA = \"q\"; B = \"q\";\nrule = U1 U2 A B;\nother = missing1 missing2;\n",
+	"grammar md;\nAA = \"q\"; BB = \"q\";\nrule = U1 U2 AA BB;\nother = missing1 missing2;\n",
 	// precedence handles in several levels
 	"grammar md;\n@left \"+\" \"-\";\n@right \"+\" \"*\";\n@none \"-\" \"*\";\nstart = start \"+\" start | start \"-\" start | start \"*\" start | \"n\";\n",
 }
